@@ -282,6 +282,16 @@ def tensor(vk, cfg):
                 st = symnp._sqrt(lam)
                 f = symnp._OVERRIDES["log"](st) if k == 0 else (st**k - 1) / k
                 vk.ensures_eq(f"strain/k={k}", E, ref_einsum("ayz,iayz,jayz->ijyz", f, N, N))
+                # flag variants: Voigt storage of the strain tensor (doubled shear components) and principal values only
+                Ev = M.strain(None, C=S, k=k, asvoigt=True)
+                Eref = ref_einsum("ayz,iayz,jayz->ijyz", f, ref_einsum("yzia->iayz", seen["V"]), ref_einsum("yzia->iayz", seen["V"]))
+                vk.ensures_eq(f"strain/asvoigt/k={k}", Ev, M.tovoigt(Eref, strain=True))
+                symnp.LINALG_STUBS.update(eigvalsh=backend_vals_T)
+                Ep = M.strain(None, C=S, tensor=False, k=k)
+                stv = symnp._sqrt(ref_einsum("zya->ayz", seen["wT"]))
+                vk.ensures_eq(f"strain/principal-values(tensor=False)/k={k}", Ep, symnp._OVERRIDES["log"](stv) if k == 0 else (stv**k - 1) / k)
+                if k == 2:
+                    vk.canary("strain/principal-values(tensor=False) ignore k", Ep, symnp._OVERRIDES["log"](stv))
         finally:
             symnp.LINALG_STUBS.clear()
     elif g == "solve":
